@@ -1,4 +1,6 @@
 import CovfieModel.Model.Stack
+import CovfieModel.Props.C01
+import CovfieModel.Props.C02
 import Mathlib.Tactic.Linarith
 import Mathlib.Algebra.Order.Field.Basic
 /-! # C10 — Clamping makes every coordinate safe -/
@@ -31,4 +33,160 @@ theorem clamp_eval (lo hi : List Num) (b : Backend) (c : List Num) :
 
 example : clampNum (.fin 0) (.fin 4) .pinf = .fin 4 ∧ clampNum (.fin 0) (.fin 4) .ninf = .fin 0 ∧
     clampNum (.fin 0) (.fin 4) (.fin 3) = .fin 3 := by decide
+end Covfie.C10
+
+/-! ## clamp_safe: composition with C01 for array-backed row-major storage -/
+namespace Covfie.C10
+
+/-- integer box `lo ≤ hi` inside the extents `sz` -/
+def BoxIn : List Nat → List Nat → List Nat → Prop
+  | [], [], [] => True
+  | l :: ls, h :: hs, s :: ss => l ≤ h ∧ h < s ∧ BoxIn ls hs ss
+  | _, _, _ => False
+
+def natNums (xs : List Nat) : List Num := xs.map fun (n : Nat) => Num.fin (n : Rat)
+def intNums (zs : List Int) : List Num := zs.map fun (z : Int) => Num.fin (z : Rat)
+
+/-- one component: whatever integer comes in, the clamped value is a natural number below the extent -/
+theorem clamp_component (l h s : Nat) (z : Int) (hlh : l ≤ h) (hs : h < s) :
+    ∃ n, natOf (clampNum (.fin (l : Rat)) (.fin (h : Rat)) (.fin (z : Rat))) = .ok n ∧ n < s := by
+  unfold clampNum
+  simp only [Num.lt]
+  by_cases h1 : (z : Rat) < (l : Rat)
+  · refine ⟨l, ?_, by omega⟩
+    simp [h1, natOf]
+  · by_cases h2 : (h : Rat) < (z : Rat)
+    · refine ⟨h, ?_, hs⟩
+      simp [h1, h2, natOf]
+    · have hz1 : (l : Int) ≤ z := by
+        have : (l : Rat) ≤ (z : Rat) := not_lt.mp h1
+        exact_mod_cast this
+      have hz2 : z ≤ (h : Int) := by
+        have : (z : Rat) ≤ (h : Rat) := not_lt.mp h2
+        exact_mod_cast this
+      refine ⟨z.toNat, ?_, by omega⟩
+      have h0 : (0 : Int) ≤ z := by omega
+      simp [h1, h2, natOf, h0]
+
+/-- all components: the clamped coordinate converts to natural numbers inside the box of extents -/
+theorem clamp_inBox (lo hi sz : List Nat) (zs : List Int) (hb : BoxIn lo hi sz) (hl : zs.length = sz.length) :
+    ∃ cs, mapE natOf (zip3With clampNum (natNums lo) (natNums hi) (intNums zs)) = .ok cs ∧ InBox sz cs := by
+  induction lo generalizing hi sz zs with
+  | nil =>
+    cases hi <;> cases sz <;> simp [BoxIn] at hb
+    cases zs with
+    | nil => exact ⟨[], rfl, trivial⟩
+    | cons z zs => simp at hl
+  | cons l ls ih =>
+    cases hi with
+    | nil => simp [BoxIn] at hb
+    | cons h hs =>
+      cases sz with
+      | nil => simp [BoxIn] at hb
+      | cons s ss =>
+        cases zs with
+        | nil => simp at hl
+        | cons z zs =>
+          obtain ⟨hlh, hhs, hb'⟩ := hb
+          obtain ⟨n, hn, hns⟩ := clamp_component l h s z hlh hhs
+          obtain ⟨cs, hcs, hin⟩ := ih hs ss zs hb' (by simpa using hl)
+          refine ⟨n :: cs, ?_, ⟨hns, hin⟩⟩
+          simp only [natNums, intNums, List.map_cons, zip3With, mapE] at hcs ⊢
+          rw [hn, hcs]
+
+/-- **clamp_safe** for row-major array storage: with an integer box inside the extents, a lookup of
+    `clamp<strided<array>>` succeeds for every integer coordinate whatsoever, touches exactly one cell, and that cell
+    lies inside the storage (composition with C01: the index arithmetic at width `w` is exact and in range) -/
+theorem clamp_safe_strided (cv : Conv) (w : Nat) (lo hi sz : List Nat) (zs : List Int) (cells : List (List Num))
+    (hb : BoxIn lo hi sz) (hl : zs.length = sz.length) (hfit : prod sz ≤ 2^w) (hst : prod sz ≤ cells.length) :
+    ∃ v i, eval cv (.clamp (.strided w .array)) (.box (natNums lo) (natNums hi) (.sized sz (.array cells))) (intNums zs)
+        = .ok (v, [i]) ∧ i < cells.length := by
+  obtain ⟨cs, hcs, hin⟩ := clamp_inBox lo hi sz zs hb hl
+  have hidx : stridedIdxW w sz cs = stridedIdx sz cs := Covfie.C01.strided_code w sz cs hin hfit
+  have hlt : stridedIdx sz cs < cells.length := Nat.lt_of_lt_of_le (Covfie.C01.strided_in_storage sz cs hin) hst
+  refine ⟨cells[stridedIdx sz cs], stridedIdx sz cs, ?_, hlt⟩
+  simp only [eval, clampL, layoutL, hcs, hidx, arrayB]
+  simp [hlt]
+
+end Covfie.C10
+
+/-! ## clamp beneath an interpolator -/
+namespace Covfie.C10
+open Covfie.C02
+
+theorem natNums_eq_intNums (ns : List Nat) : natNums ns = intNums (ns.map fun (n : Nat) => (n : Int)) := by
+  simp [natNums, intNums]
+
+/-- `mapE` succeeds when the function succeeds on every element -/
+theorem mapE_ok_of_forall {α β ε} (f : α → Except ε β) (l : List α) (h : ∀ a ∈ l, ∃ b, f a = .ok b) :
+    ∃ r, mapE f l = .ok r := by
+  induction l with
+  | nil => exact ⟨[], rfl⟩
+  | cons a as ih =>
+    obtain ⟨b, hb⟩ := h a List.mem_cons_self
+    obtain ⟨bs, hbs⟩ := ih (fun x hx => h x (List.mem_cons_of_mem _ hx))
+    exact ⟨b :: bs, by simp [mapE, hb, hbs]⟩
+
+theorem truncIdx_ok (qs : List Rat) (hq : ∀ q ∈ qs, 0 ≤ q) :
+    mapE truncIdx (qs.map Num.fin) = .ok (qs.map fun q => (q.floor.toNat, q - (q.floor : Rat))) := by
+  induction qs with
+  | nil => rfl
+  | cons q qs ih =>
+    have h0 : 0 ≤ q := hq q List.mem_cons_self
+    simp only [List.map_cons, mapE, truncIdx, h0, if_true, ih (fun x hx => hq x (List.mem_cons_of_mem _ hx))]
+
+theorem addBits_eq_natNums (is : List Nat) (bs : List Bool) :
+    addBits is bs = natNums (List.zipWith (fun i b => i + (if b then 1 else 0)) is bs) := by
+  induction is generalizing bs with
+  | nil => simp [addBits, natNums]
+  | cons i is ih =>
+    cases bs with
+    | nil => simp [addBits, natNums]
+    | cons b bs =>
+      have := ih bs
+      simp only [addBits, natNums] at this ⊢
+      simp [this]
+
+/-- **clamp beneath an interpolator**: with the integer box inside the extents, `linear<clamp<strided<array>>>`
+    succeeds for every finite real coordinate `x ≥ 0`, and every cell it reads lies inside the storage -/
+theorem linear_clamp_safe (cv : Conv) (w : Nat) (lo hi sz : List Nat) (qs : List Rat) (cells : List (List Num))
+    (hb : BoxIn lo hi sz) (hl : qs.length = sz.length) (hq : ∀ q ∈ qs, 0 ≤ q)
+    (hfit : prod sz ≤ 2^w) (hst : prod sz ≤ cells.length) :
+    ∃ v t, eval cv (.linear (.clamp (.strided w .array)))
+        (.thin (.box (natNums lo) (natNums hi) (.sized sz (.array cells)))) (qs.map Num.fin) = .ok (v, t)
+      ∧ ∀ i ∈ t, i < cells.length := by
+  set bk : Backend := eval cv (.clamp (.strided w .array)) (.box (natNums lo) (natNums hi) (.sized sz (.array cells))) with hbk
+  set is : List Nat := (qs.map fun q => (q.floor.toNat, q - (q.floor : Rat))).map (·.1) with his
+  have hislen : is.length = sz.length := by simp [his, hl]
+  -- every corner query succeeds with a one-element trace inside the storage
+  have hcorner : ∀ bs ∈ corners (qs.map Num.fin).length, ∃ v i, bk (addBits is bs) = .ok (v, [i]) ∧ i < cells.length := by
+    intro bs hbs
+    have hbl : bs.length = sz.length := by rw [corners_length _ bs hbs]; simp [hl]
+    rw [addBits_eq_natNums, natNums_eq_intNums]
+    exact clamp_safe_strided cv w lo hi sz _ cells hb (by simp [hislen, hbl]) hfit hst
+  have hall : ∀ bs ∈ corners (qs.map Num.fin).length, ∃ r, cornerQuery bk is bs = .ok r := by
+    intro bs hbs
+    obtain ⟨v, i, hvi, _⟩ := hcorner bs hbs
+    exact ⟨(bs, (v, [i])), by simp [cornerQuery, hvi]⟩
+  obtain ⟨rs, hrs⟩ := mapE_ok_of_forall _ _ hall
+  have hlin : ∃ v, linearL bk (qs.map Num.fin) = .ok (v, rs.flatMap (·.2.2)) := by
+    simp only [linearL, truncIdx_ok qs hq]
+    rw [← his, hrs]
+    exact ⟨_, rfl⟩
+  obtain ⟨v, hv⟩ := hlin
+  have hev : eval cv (.linear (.clamp (.strided w .array)))
+      (.thin (.box (natNums lo) (natNums hi) (.sized sz (.array cells)))) (qs.map Num.fin)
+      = .ok (v, rs.flatMap (·.2.2)) := by
+    rw [eval_linear]; exact hv
+  refine ⟨v, rs.flatMap (·.2.2), hev, ?_⟩
+  · intro i hi
+    simp only [List.mem_flatMap] at hi
+    obtain ⟨r, hr, hir⟩ := hi
+    obtain ⟨bs, hbs, hq'⟩ := mapE_mem _ _ _ hrs r hr
+    obtain ⟨v, j, hvj, hj⟩ := hcorner bs hbs
+    simp [cornerQuery, hvj] at hq'
+    subst hq'
+    simp at hir
+    omega
+
 end Covfie.C10
